@@ -50,6 +50,8 @@ def source(enum, variants, rule, tag, content, flavour="plain", spelling="merged
             body += '    #[serde(rename = "%s")]\n' % ren.replace("\\", "\\\\").replace('"', '\\"')
         if kind == "unit":
             body += f"    {ident},\n"
+        elif kind == "newtype_opt":          # an optional payload: the decoders get a branch for `content: null`
+            body += f"    {ident}(Option<String>),\n"
         elif kind == "newtype":
             ty = {"Rec": f"Box<{name}{gen}>", "GenV": "T"}.get(ident, "u32")
             body += f"    {ident}({ty}),\n"
